@@ -1,7 +1,7 @@
 """C13 — length octets: requests for the correspondence check and the reference comparison."""
 from common import *
 
-THEOREMS = ["write_eq_spec", "write_len", "written_minimal", "read_write", "read_eq_spec", "total_len"]
+THEOREMS = ["write_eq_spec", "write_len", "written_minimal", "read_write", "read_eq_spec", "total_len", "write_prefix_free", "write_inj"]
 RULE = ("len.write n: every n within +-300 of each length-class boundary plus random n < 2^32; "
         "len.read: every first octet x tails of 0-2 octets (all) and 3-5 octets from a boundary alphabet x 3 modes, "
         "complete and truncated; run: whole values with the length octets under test and matching content. "
@@ -81,7 +81,7 @@ def gen(tier, rng):
 
 LEVEL = "proof"
 LEVEL_TEXT = ("Lean 4 theorems for all n < 2^32, all modes and ALL length-octet strings: the writer emits the reference shortest form "
-              "(write_eq_spec, write_len, written_minimal, total_len), every mode reads it back (read_write), and on every input the reader "
+              "(write_eq_spec, write_len, written_minimal, total_len), every mode reads it back (read_write), the written forms are self-delimiting - no form is a prefix of another, distinct lengths are written differently (write_prefix_free, write_inj) -, and on every input the reader "
               "equals the reference reader (read_eq_spec: BER any form, CER/DER only the shortest, 0x80 indefinite, >4 octets/truncated rejected, "
               "exact consumption). The model is tied to /repo on every run by differential correspondence (about 300k requests quick).")
 LEVEL_NOTE = ("Trusted: Lean kernel; axioms propext, Classical.choice, Quot.sound; hand-written model of src/length.rs (64-bit variants) and "
